@@ -2279,40 +2279,43 @@ class AnsiStr(str):
         cpy.casefold(inplace=True)
         return AnsiStr(cpy)
 
-    def center(self, width:int, fillchar:str=' ') -> 'AnsiStr':
+    def center(self, width:int, fillchar:str=' ', extend_formatting:bool=True) -> 'AnsiStr':
         '''
         Center justification.
         Parameters:
             width - the number of characters to center over
             fillchar - the character used to fill empty spaces
+            extend_formatting - when True, the fill characters take the formatting of the adjacent character
         Returns: a new AnsiStr
         '''
         cpy = self._s.copy()
-        cpy.center(width, fillchar, inplace=True)
+        cpy.center(width, fillchar, inplace=True, extend_formatting=extend_formatting)
         return AnsiStr(cpy)
 
-    def ljust(self, width:int, fillchar:str=' ') -> 'AnsiStr':
+    def ljust(self, width:int, fillchar:str=' ', extend_formatting:bool=True) -> 'AnsiStr':
         '''
         Left justification.
         Parameters:
             width - the number of characters to left justify over
             fillchar - the character used to fill empty spaces
+            extend_formatting - when True, the fill characters take the formatting of the adjacent character
         Returns: a new AnsiStr
         '''
         cpy = self._s.copy()
-        cpy.ljust(width, fillchar, inplace=True)
+        cpy.ljust(width, fillchar, inplace=True, extend_formatting=extend_formatting)
         return AnsiStr(cpy)
 
-    def rjust(self, width:int, fillchar:str=' ') -> 'AnsiStr':
+    def rjust(self, width:int, fillchar:str=' ', extend_formatting:bool=True) -> 'AnsiStr':
         '''
         Right justification.
         Parameters:
             width - the number of characters to right justify over
             fillchar - the character used to fill empty spaces
+            extend_formatting - when True, the fill characters take the formatting of the adjacent character
         Returns: a new AnsiStr
         '''
         cpy = self._s.copy()
-        cpy.rjust(width, fillchar, inplace=True)
+        cpy.rjust(width, fillchar, inplace=True, extend_formatting=extend_formatting)
         return AnsiStr(cpy)
 
     def __eq__(self, value:'AnsiStr') -> bool:
